@@ -23,9 +23,36 @@ namespace {
 const bool* gMutexHeld = nullptr;
 bool gAtomicSections = false;
 
+// With --yield-at after|both the explorer keeps its "an operation is in progress" flag (g.at_before) up across the
+// operation's statement.  condition_variable::wait has InjectFault() calls of its own inside the statement
+// (fiber/condition_variable.hpp WaitImpl, before the unlock and after the re-lock), and g.at_before is global: a worker
+// that resumes inside its wait while ANOTHER fiber is between the two InjectFault()s of its operation would be offered
+// a switch after it re-took the mutex but before the tracer has seen its wait complete.  The mapping of checks/c08.py
+// reads "wait completed" as "mutex re-taken", so such a switch is not offered: a decision is only taken by the fiber
+// whose operation is the one in progress.  (The same place is covered as "before the worker's next operation".)
+std::uint64_t gOpFiber = 0;
+
+void BeforeOwned(const volatile void* obj, const char* op) {
+  vrt::detail::Before(obj, op);
+  gOpFiber = vrt::g.cur;
+}
+
 std::int64_t ChooseReduced(int kind, std::uint64_t n) {
+  if (kind == yaclib::verif::kYield && vrt::g.active && vrt::g.cur != gOpFiber) {
+    return 0;
+  }
   if (kind == yaclib::verif::kYield && gAtomicSections && vrt::g.active && gMutexHeld != nullptr && *gMutexHeld) {
-    vrt::g.at_before = false;
+    // no decision at this InjectFault, but keep the explorer's bookkeeping of which of the two InjectFault()s of the
+    // current operation this is (--yield-at after|both decide at the second one: after `unlock` the mutex is free again
+    // and the switch is offered; after `lock` / around `wait` it is held and nothing is offered)
+    if (!vrt::g.at_before) {
+      return 0;
+    }
+    const bool second = vrt::g.inject_second;
+    vrt::g.inject_second = true;
+    if (second || vrt::g.opt.yield_at == 0) {
+      vrt::g.at_before = false;
+    }
     return 0;
   }
   return vrt::detail::Choose(kind, n);
@@ -266,6 +293,7 @@ int main(int argc, char** argv) {
   const std::string set = m.Param("set", "small");
   gAtomicSections = m.Param("atomic", "0") == "1";
   yaclib::verif::gHooks.choose = ChooseReduced;
+  yaclib::verif::gHooks.before = BeforeOwned;
   std::vector<Cfg> cfgs;
   auto add = [&](int n, int s, int per, int pre, bool late, bool y) {
     for (int kind = 0; kind < 3; ++kind) {
